@@ -63,6 +63,7 @@ type State struct {
 	dead      bool
 	forked    []*ssa.Go
 	joinBase  Term
+	pendingHook *ssa.Call
 }
 
 func (s *State) clone() *State {
@@ -81,6 +82,7 @@ func (s *State) clone() *State {
 		n.iters[k] = v
 	}
 	n.threads = append([]*threadRec{}, s.threads...)
+	n.pendingHook = s.pendingHook
 	n.forked = append([]*ssa.Go{}, s.forked...)
 	n.joinBase = s.joinBase
 	for k, v := range s.wgAdded {
@@ -479,6 +481,20 @@ func (vc *VC) loopEnv(st *State, li *loopInfo, old *Heap) *Env {
 		}
 	}
 	e.locals = func(ce *Env, name string) (TV, bool) {
+		if name == "_range" {
+			// the slice a range loop iterates over (when the range expression has no name of its own)
+			for _, ins := range li.header.Instrs {
+				if phi, ok := ins.(*ssa.Phi); ok && phi.Comment == "rangeindex" {
+					if lim := vc.rangeLimit(li, phi); lim != nil {
+						if cl, ok := lim.(*ssa.Call); ok && len(cl.Call.Args) == 1 {
+							if sv, ok := st.vals[cl.Call.Args[0]]; ok && sv.T != "" {
+								return TV{T: sv.T, S: goSType(cl.Call.Args[0].Type())}, true
+							}
+						}
+					}
+				}
+			}
+		}
 		if name == "_idx" || name == "_done" {
 			for _, ins := range li.header.Instrs {
 				if phi, ok := ins.(*ssa.Phi); ok && phi.Comment == "rangeindex" {
@@ -791,6 +807,15 @@ func (vc *VC) execFrom(st *State, b *ssa.BasicBlock, from *ssa.BasicBlock) {
 			if _, ok := ins.(*ssa.Phi); ok {
 				continue
 			}
+			if st.pendingHook != nil {
+				switch ins.(type) {
+				case *ssa.Extract, *ssa.DebugRef:
+				default:
+					ph := st.pendingHook
+					st.pendingHook = nil
+					vc.siteHooks(st, vc.calleeKeyOf(st, &ph.Call), ph, false)
+				}
+			}
 			switch x := ins.(type) {
 			case *ssa.If:
 				c := vc.val(st, x.Cond).T
@@ -886,6 +911,10 @@ func (vc *VC) loopEnter(st *State, li *loopInfo, from *ssa.BasicBlock) {
 		vc.curState = pre
 		env := vc.loopEnv(pre, li, newHeap())
 		for _, inv := range li.spec.Invariants {
+			if inv.Free {
+				vc.usedTrusted[fmt.Sprintf("assumed loop invariant [%s] of %s: %s", inv.Label, shortFuncKey(vc.key), inv.Src)] = true
+				continue
+			}
 			g := vc.trClause(env, inv)
 			vc.oblige(pre, g, fmt.Sprintf("loop%d:%s:init", li.ordinal, inv.Label), "invariant-init", site, clauseProps(inv, vc.props()), inv.Src, "")
 		}
@@ -1027,6 +1056,9 @@ func (vc *VC) loopBackEdge(st *State, li *loopInfo, from *ssa.BasicBlock) {
 		vc.curState = post
 		env := vc.loopEnv(post, li, newHeap())
 		for _, inv := range li.spec.Invariants {
+			if inv.Free {
+				continue
+			}
 			g := vc.trClause(env, inv)
 			vc.oblige(post, g, fmt.Sprintf("loop%d:%s:step", li.ordinal, inv.Label), "invariant-step", site, clauseProps(inv, vc.props()), inv.Src, "")
 		}
@@ -1168,7 +1200,8 @@ func (vc *VC) execInstr(st *State, ins ssa.Instruction) {
 	case *ssa.Call:
 		res := vc.execCall(st, x)
 		st.vals[x] = res
-		vc.siteHooks(st, vc.calleeKeyOf(st, &x.Call), x, false)
+		// "after call" hooks run once the call's results have been extracted (so they can name them)
+		st.pendingHook = x
 	case *ssa.ChangeInterface:
 		v := vc.val(st, x.X)
 		st.vals[x] = Val{T: v.T, Typ: x.Type()}
